@@ -4,7 +4,7 @@ REG = {
   text="FGrammar states the grammar twice (executable precedence-climbing ParseTokens; declarative WF + Unparse); TLC checks "
        "ParseTokens(s)=T => WF(T) /\\ Unparse(T)=s in every state of the exhaustive enumeration of token sequences (k<=4 quick, "
        "k<=5 thorough, 31-symbol class alphabet incl. line-break variants); every enumerated sequence is then replayed into the "
-       "real parser and the projected tree / rejection compared with the specification's.",
+       "real parser and the projected tree / rejection compared with the specification's. Further models: the operator ladder (every a op b op c op d), postfix chains with line-break variants (k<=7), every single-token near miss (deletion, insertion, replacement, swap) of 14 canonical sentences (MC_NearMiss), and a seeded random walk over deep trees with a one-token mutation of every spelling; the specification's parser says which near misses are still sentences.",
   note="Trusted: TLC, the Go projection of the AST (harness/proj), one representative lexeme per token class. Unpinned corners "
        "(keyword as member name, f(...)) are only checked for totality.",
   technique="TLA+ grammar specification model-checked with TLC; bounded-exhaustive replay of TLC states into the real parser",
@@ -47,7 +47,7 @@ REG = {
  "C05": dict(
   text="FEval's comparison cells (numeric order by exact decimal comparison independent of spelling, bytewise string order, "
        "StrictEq, negations, == = === on same kinds) evaluated by TLC on all ordered pairs of 46 value spellings x 8 operators "
-       "and replayed into the real evaluator.",
+       "and replayed into the real evaluator. The negation laws [a == b, a != b] and [a === b, a !== b] are checked over all pairs of all value kinds, also where the comparison itself is unpinned; seeded random literal spellings are lexed by the specification from the bytes (Trace_Parse); random programs are validated node by node (Trace_Nodes).",
   note="Trusted: TLC, FDecimal digit arithmetic (self-checked by MC_Decimal when C04 is run). Cross-kind cells unpinned.",
   technique="TLA+ value/evaluator specification checked with TLC; exhaustive pair grid replayed into the real evaluator",
   design="DESIGN.md section 4/C05"),
@@ -62,7 +62,7 @@ REG = {
   text="Store-passing FEval: `$n = e` binds in the runner's map, `,` / array elements / arguments left to right, invalid targets "
        "are errors; TLC checks the Frame invariant (only `$` entries are added or changed) on every program of the family and each "
        "is replayed: value, host-call order, map afterwards, plus a deep before/after snapshot of the caller's data "
-       "(pointer identity and digits of every reachable number).",
+       "(pointer identity and digits of every reachable number). Every history of one runner (MC_Runner, N<=4) is replayed as well, so bindings are observed by later evaluations of the same runner; random programs are validated as wholes and node by node.",
   note="Trusted: TLC, the snapshot function of the driver. Later evaluations by the same runner are covered by the runner model (C20).",
   technique="TLA+ store-passing evaluator specification model-checked with TLC; exhaustive replay + deep data snapshots",
   design="DESIGN.md section 4/C07"),
@@ -70,7 +70,7 @@ REG = {
   text="FFields defines the read paths (lower) and read-or-assigned paths (upper), refusal, the non-local subset, called names and "
        "use of `this`; TLC checks Sufficiency (restricted data map gives the same outcome) on the specification; the real "
        "analysis functions are compared as sets (no duplicates, lower <= reported <= upper) and the real evaluator is run on the "
-       "full and on the restricted data map.",
+       "full and on the restricted data map. A failure that appears only after earlier analyses in the same process (state kept between calls) is confirmed by an ordered single-worker re-run.",
   note="Trusted: TLC, tree projection (the compared tree comes from the real parser).",
   technique="TLA+ field-analysis + evaluator specification model-checked with TLC; exhaustive replay into the real analysis and evaluator",
   design="DESIGN.md section 4/C10"),
@@ -85,7 +85,7 @@ REG = {
        "history up to N on one and two runners sharing maps and checks the action properties Frame, AuxInvisible, "
        "ReplaceDiscardsLocals, SetEntryCreatesMap on every transition; each history is replayed on real runners with the full "
        "abstract state compared after every operation, and seeded random long histories recorded from the real code are validated "
-       "event by event by the trace specification Trace_Runner (with a binding self-test that corrupts one event).",
+       "event by event by the trace specification Trace_Runner (with a binding self-test that corrupts one event). The world has three caller maps (one installed while empty), a field holding 2^53+1, nine formulas (locals read as operands, a local assigned in an unselected operand, bindings before a failure).",
   note="Trusted: TLC, state projection through Resolve(`this`), Get and the caller's own maps.",
   technique="TLA+ state-machine specification model-checked with TLC; exhaustive history replay + TLC trace validation of recorded histories",
   design="DESIGN.md section 4/C20"),
@@ -93,7 +93,7 @@ REG = {
   text="A reference escaper in TLA+ (MC_Strings) writes every character in each of its equivalent forms; TLC checks the "
        "round-trip theorem DecodeString(Escape(t, choices, quote)) = t and 'open literal => lexical error' as an invariant over "
        "all texts <= 3 characters over a 20-character alphabet x all choice vectors x both quotes x {closed, open} (1.8 M "
-       "literals); each literal is replayed into the real scanner, parser and evaluator.",
+       "literals); each literal is replayed into the real scanner, parser and evaluator. Stray bytes (0xFF, a lone continuation byte 0x85) are symbols of the alphabet; seeded random literals (all escape forms, stray bytes, every line-break form) are validated by Trace_Parse.",
   note="Trusted: TLC, UTF-8 Encode/Decode of FChars. Malformed / unknown escapes are unpinned.",
   technique="TLA+ lexical specification with a reference escaper, theorem model-checked by TLC; exhaustive replay into scanner, parser, evaluator",
   design="DESIGN.md section 4/C13"),
@@ -117,7 +117,7 @@ REG = {
        "the two's-complement bit operators on digit sequences; TLC checks NamesSay (defining bounds) on the specification and computes "
        "every case of the grid family, replayed into the real evaluator; toString is checked through toFloat(toString(x)) === x; "
        "sqrt, exp, ln, log are recorded from the real builtins and judged by FTranscend in Trace_Math (sqrt by squaring, exp against a "
-       "32-decimal fixed-point Taylor evaluation that checks itself on known constants, ln and log through exp).",
+       "32-decimal fixed-point Taylor evaluation that checks itself on known constants, ln and log through exp). Random arithmetic programs are validated node by node; sqrt / exp / ln / log are judged by the fixed-point oracle FTranscend (Trace_Math), with the exact inverses: log of every power of ten 1e-15..1e15, sqrt(x*x) = x for x of up to 15 digits.",
   note="Trusted: TLC, FDecimal. '15 significant digits' is read as relative error <= 5e-15; exp arguments |x| < 40.",
   technique="TLA+ decimal-arithmetic specification model-checked with TLC; exhaustive grid replay into the real evaluator",
   design="DESIGN.md section 4/C18"),
@@ -126,7 +126,7 @@ REG = {
        "nearness by integer comparison); TLC checks the oracle's own algebra (OracleSane) and computes every case of the grid "
        "family for replay; seeded random 34-digit operands, chains and float64/int64 data recorded from the real evaluator are "
        "validated event by event by Trace_Expr (sums/products computed, quotients/remainders checked by multiplication brackets, "
-       "the returned float64 checked as nearest / within 4 ulp).",
+       "the returned float64 checked as nearest / within 4 ulp). Operands around the machine-word boundaries (2^31 .. 2^64) under + - *; results of <=15 digits with coefficients padded above 2^53; random literal spellings lexed by the specification (Trace_Parse); random arithmetic programs of literals up to 34 digits validated node by node from the observed values of the children (Trace_Nodes).",
   note="Trusted: TLC, decimal.Big.Decompose and math.Frexp for exact projections, math/big for the remainder witness (verified by TLC).",
   technique="TLA+ exact decimal arithmetic model-checked with TLC; grid replay + TLC trace validation of recorded random arithmetic",
   design="DESIGN.md section 4/C04"),
@@ -143,7 +143,7 @@ REG = {
   text="FCall.CallOutcome states the arity rules (fixed, variadic, spread), the per-kind conversions (truncation, element-wise "
        "slices, nil for interface parameters, identical types) and context injection; TLC checks the arity invariants and "
        "computes the outcome of 861 k (signature, arguments, spread, return) cases; each is executed against a function "
-       "synthesised with reflect.MakeFunc that records every invocation.",
+       "synthesised with reflect.MakeFunc that records every invocation. Typed Go slices ([]string, []int) are among the arguments; their raw elements are a value kind of their own (goint): pinned towards integer, float and interface parameters, open towards string and *decimal.Big parameters.",
   note="Trusted: TLC, reflect.MakeFunc / FuncOf, value projection. Signatures are limited to two parameters.",
   technique="TLA+ call-bridge specification model-checked with TLC; exhaustive replay against reflectively synthesised recording functions",
   design="DESIGN.md section 4/C11"),
